@@ -16,7 +16,8 @@ import (
 	"github.com/enbility/ship-go/zzverif/simrt"
 )
 
-var prop = flag.String("prop", "C12", "C12|C13")
+var prop = flag.String("prop", "C12", "C12|C13|C20")
+var only = flag.String("only", "", "development aid: explore only the scenarios whose name contains this")
 
 // rec is the fake SHIP layer above the websocket connection.
 type rec struct {
@@ -26,6 +27,8 @@ type rec struct {
 	errors    []error
 	errorAt   []int
 	blockIn   bool
+	conn      *ws.WebsocketConnection
+	queried   []string // what the closed-query answered while the error was being reported
 }
 
 func (r *rec) tick() int { r.seq++; return r.seq }
@@ -39,6 +42,11 @@ func (r *rec) ReportConnectionError(err error) {
 	simrt.Touch("rec")
 	r.errors = append(r.errors, err)
 	r.errorAt = append(r.errorAt, r.tick())
+	// like the SHIP layer, ask the connection about its state while being told (this takes time: other goroutines run)
+	if r.conn != nil {
+		closed, cerr := r.conn.IsDataConnectionClosed()
+		r.queried = append(r.queried, fmt.Sprintf("%v,%v", closed, cerr != nil))
+	}
 }
 
 type world struct {
@@ -51,6 +59,7 @@ func newWorld() *world {
 	a, b := fakews.Pipe("local", "peer")
 	wd := &world{a: a, b: b, r: &rec{}}
 	wd.w = ws.NewWebsocketConnection(a, "ski")
+	wd.r.conn = wd.w
 	wd.w.InitDataProcessing(wd.r)
 	return wd
 }
@@ -296,6 +305,11 @@ func c13Body(cfg c13cfg) func() {
 			if !closed || cerr == nil {
 				simrt.Fail("C13|closed-query-wrong", "after %s IsDataConnectionClosed() = (%v, %v), want (true, non-nil)", cfg, closed, cerr)
 			}
+			for _, q := range wd.r.queried {
+				if q != "true,true" {
+					simrt.Fail("C13|closed-query-wrong-while-told", "while the connection error was reported (%s) IsDataConnectionClosed() answered (closed, error set) = (%s), want (true,true)", cfg, q)
+				}
+			}
 		}
 		limit := 0
 		if len(wd.r.errorAt) > 0 {
@@ -364,8 +378,19 @@ func main() {
 	case "C13":
 		scens = c13Scenarios(r)
 		level = "fault_enumeration"
+	case "C20":
+		scens = c20wsScenarios(r)
 	default:
 		hx.EngineError("unknown -prop %s", *prop)
+	}
+	if *only != "" {
+		var f []hx.Scenario
+		for _, sc := range scens {
+			if strings.Contains(sc.Name, *only) {
+				f = append(f, sc)
+			}
+		}
+		scens = f
 	}
 	if r.Worker {
 		hx.SWorker(scens)
